@@ -1,6 +1,10 @@
 (* Model driver for the primitive layer.
    input : <index in prims_all> <param hex|-> <argc> <value>...
-   output: <value> f <fetched...>  |  THROW  |  STUCK            *)
+   output: <value> f <fetched...>  |  THROW  |  STUCK
+   input : TREE <nvars> <value>... <node>...   (C13; nodes in prefix order)
+             node = P:<index in prims_all>:<index in c13_table>:<cat>:<argcats|->:<param|->  |  V:<i>:<cat>
+   output: <value> wt|notwt  |  THROW  |  STUCK  |  MISMATCH
+           (wt: every primitive node passes RealDefs.sig_okb for categories 0 real, 1 int, 2 string) *)
 let f64_of_hex h = F64.of_bits (z_of_hex h)
 let hex_of_f64 f = hex_of_z (F64.to_bits f)
 let float_of_f64 f = Int64.float_of_bits (int64_bits_of_z (F64.to_bits f))
@@ -27,12 +31,57 @@ let show_value (v : value) : string =
   | VDouble f -> "d:" ^ hex_of_f64 f
   | VString s -> "s:" ^ String.concat "" (List.map (fun c -> Printf.sprintf "%02x" (int_of_z c)) s)
 
+(* ---- C13: whole programs ---- *)
+let kc (c : nat) : kind = match int_of_nat c with 0 -> KReal | 1 -> KInt | _ -> KStr
+let split_on sep s = String.split_on_char sep s
+let cats_of s = if s = "-" then [] else List.map (fun x -> nat_of_int (int_of_string x)) (split_on ',' s)
+exception Mismatch
+let run_tree_line (bodies : stmt list array) (w : string list) : string =
+  let nv = int_of_string (List.nth w 1) in
+  let rest = List.tl (List.tl w) in
+  let vals = List.filteri (fun i _ -> i < nv) rest in
+  let vars = Array.of_list (List.map parse_value vals) in
+  let toks = ref (List.filteri (fun i _ -> i >= nv) rest) in
+  let wt = ref true in
+  let table = Array.of_list c13_table in
+  let rec node () : tree =
+    match !toks with
+    | [] -> raise Mismatch
+    | t :: r ->
+        toks := r;
+        (match split_on ':' t with
+         | ["V"; i; c] ->
+             let i = nat_of_int (int_of_string i) in
+             Node ({ s_opcode = Z0; s_cat = nat_of_int (int_of_string c); s_argcats = []; s_parametric = false;
+                     s_strat = Var (i, (fun v -> Ret (Val v))) }, F64.of_bits Z0, [])
+         | ["P"; idx; tix; c; acs; par] ->
+             let (body, sg) = table.(int_of_string tix) in
+             if body <> bodies.(int_of_string idx) then raise Mismatch;
+             let cat = nat_of_int (int_of_string c) in
+             let argcats = cats_of acs in
+             if not (sig_okb kc sg argcats cat) then wt := false;
+             let kids = List.map (fun _ -> node ()) argcats in
+             let p = if par = "-" then F64.of_bits Z0 else f64_of_hex par in
+             Node ({ s_opcode = Z0; s_cat = cat; s_argcats = argcats; s_parametric = (par <> "-");
+                     s_strat = strategy_of lm body }, p, kids)
+         | _ -> raise Mismatch) in
+  try
+    let t = node () in
+    if !toks <> [] then raise Mismatch;
+    let lookup (i : nat) = let k = int_of_nat i in if k < Array.length vars then Some vars.(k) else None in
+    (match run_tree lookup t with
+     | Val v -> show_value v ^ (if !wt then " wt" else " notwt")
+     | Throw -> "THROW"
+     | Stuck -> "STUCK")
+  with Mismatch -> "MISMATCH"
+
 let () =
   let bodies = Array.of_list prims_all in
   try
     while true do
       let line = input_line stdin in
       match split_ws line with
+      | "TREE" :: _ as w -> print_endline (run_tree_line bodies w)
       | idx :: par :: argc :: rest ->
           let body = bodies.(int_of_string idx) in
           let args = List.map parse_value (List.filteri (fun i _ -> i < int_of_string argc) rest) in
